@@ -266,6 +266,37 @@ theorem vector_resize_fault_atomic (plan : Plan) (v : Vec) (m : Nat) :
     (v.resizeF plan 0) = (v.resize 0, 0) :=
   ⟨Vec.resizeF_cases plan v m, rfl⟩
 
+/-- public `qvector_resize` to EVERY capacity — growing, the current one, shrinking below the element
+    count — under EVERY plan: a reported failure (only possible for newmax ≠ 0, when the one realloc
+    fails) returns the very same vector: element count, contents and capacity are what they were;
+    a success is the plain resize: the surviving elements are the prefix of length newmax, the
+    capacity is newmax, the invariant holds. At most one allocation attempt. -/
+theorem resize_fault_atomic (plan : Plan) (v : Vec) (hwf : v.WF) (newmax : Nat) :
+    ((v.resizeF plan newmax).1.1 = false →
+      (v.resizeF plan newmax).1.2 = v ∧ newmax ≠ 0 ∧ plan 1 = true) ∧
+    ((v.resizeF plan newmax).1.1 = true →
+      (v.resizeF plan newmax).1.2.live = v.live.take newmax ∧ (v.resizeF plan newmax).1.2.max = newmax ∧
+      (v.resizeF plan newmax).1.2.num = min v.num newmax ∧ (v.resizeF plan newmax).1.2.WF) ∧
+    (v.resizeF plan newmax).2 ≤ 1 := by
+  obtain ⟨h1, h2, h3, h4, _⟩ := Vec.resize_spec v hwf newmax
+  have hnum : (v.resize newmax).2.num = min v.num newmax := by
+    have a := Vec.live_length _ h3
+    rw [h2, List.length_take, Vec.live_length v hwf] at a
+    omega
+  unfold Vec.resizeF
+  by_cases h0 : newmax = 0
+  · subst h0
+    simp only [if_true]
+    refine ⟨fun h => ?_, ⟨fun _ => ⟨h2, h4, hnum, h3⟩, Nat.zero_le _⟩⟩
+    rw [h1] at h; cases h
+  · rw [if_neg h0]
+    by_cases hp : plan 1 = true
+    · rw [if_pos hp]
+      exact ⟨fun _ => ⟨rfl, h0, hp⟩, ⟨fun h => by simp at h, Nat.le_refl _⟩⟩
+    · rw [if_neg hp]
+      refine ⟨fun h => ?_, ⟨fun _ => ⟨h2, h4, hnum, h3⟩, Nat.le_refl _⟩⟩
+      rw [h1] at h; cases h
+
 /-- copying get: NULL/ENOMEM or the plain result -/
 theorem vector_get_fault (plan : Plan) (v : Vec) (index : Int) (nm : Bool) :
     v.getAtF plan index nm = .ok ((none, .ENOMEM), 1) ∨
